@@ -535,6 +535,23 @@ def _kind_conjuncts(test, var, required, where):
     return table
 
 
+def _is_linked_parent_guard(st, var):
+    """`if has_linked_parent(<var>): ...report...; continue` -- nothing is removed in the branch."""
+    return (isinstance(st, ast.If) and not st.orelse and _ws(ast.unparse(st.test)) == f"has_linked_parent({var})"
+            and st.body and isinstance(st.body[-1], ast.Continue)
+            and not (_names_in(ast.Module(body=st.body, type_ignores=[])) & (REMOVERS | {"to_be_deleted"})))
+
+
+def _check_has_linked_parent():
+    """The helper itself: walks the parents of the path (not the last component) and tests islink() on each."""
+    tree = parse_module(f"{CORE}/path.py")
+    src = _ws(ast.unparse(find_function(tree, "has_linked_parent")))
+    want = _ws("parent = Path(path).parent\nwhile parent.name not in ('..', '.', ''):\n    if parent.islink():\n"
+               "        return True\n    parent = parent.parent\nreturn False")
+    if want not in src:
+        raise TranslatorError("path.has_linked_parent: body not recognised")
+
+
 class _Rename(ast.NodeTransformer):
     def __init__(self, var):
         self.var = var
@@ -613,7 +630,12 @@ def translate_remove(en):
     if not loops or _ws(ast.unparse(loops[0].iter)) != "sorted(file_paths, reverse=True)" \
             or ast.unparse(loops[0].target) != "file_path" or loops[0].orelse:
         raise TranslatorError(f"{where}: the loop over sorted(file_paths, reverse=True) changed")
-    lb = loops[0].body
+    lb = list(loops[0].body)
+    # optional guard: a queued path below a directory that is a symbolic link is never touched
+    skips_linked = False
+    if len(lb) == 5 and _is_linked_parent_guard(lb[2], "path"):
+        skips_linked = True
+        del lb[2]
     if len(lb) != 4 or _ws(ast.unparse(lb[0])) != "old_hash = workflow.to_be_deleted[file_path]" \
             or _ws(ast.unparse(lb[1])) != "path = Path(file_path)" or not isinstance(lb[2], ast.If) or lb[2].orelse:
         raise TranslatorError(f"{where}: body of the file loop changed")
@@ -700,7 +722,9 @@ def translate_remove(en):
     src = ast.unparse(fn)
     if not _has(src, "try:\n        remove()\n    except OSError:\n        return False\n    return True"):
         raise TranslatorError("_try_remove changed")
-    return checked, decide_first, requeues
+    if skips_linked:
+        _check_has_linked_parent()
+    return checked, decide_first, requeues, skips_linked
 
 
 def translate_clean(en):
@@ -752,6 +776,11 @@ def translate_clean(en):
     clean_checked = _kind_conjuncts(ch[0], "lo_consuming_path",
                                     ["state != FileState.VOLATILE",
                                      "old_file_hash.refreshed(lo_consuming_path) != old_file_hash"], "clean.clean")
+    clean_skips_linked = any(_is_linked_parent_guard(n, "lo_consuming_path") for n in ast.walk(cfn) if isinstance(n, ast.If))
+    if clean_skips_linked:
+        _check_has_linked_parent()
+    if "has_linked_parent" in _names_in(cfn) and not clean_skips_linked:
+        raise TranslatorError("clean.clean: use of has_linked_parent not understood")
     ws2 = ws(cl.SQL_MATCH_PATH)
     if ws2 != "SELECT label FROM node JOIN file ON node.i = file.node WHERE label = ? OR {clause}":
         raise TranslatorError("clean.SQL_MATCH_PATH changed")
@@ -760,7 +789,7 @@ def translate_clean(en):
         raise TranslatorError("clean: --unsafe option changed")
     if "'--commit', action='store_true', default=False" not in src or "'--all', action='store_true', default=False" not in src:
         raise TranslatorError("clean: --commit/--all options changed")
-    return states, missing_follows, clean_checked
+    return states, missing_follows, clean_checked, clean_skips_linked
 
 
 # ---------------------------------------------------------------------------------------------
@@ -888,8 +917,8 @@ def generate():
     sql_kinds = classify_sql_sites(sql_sites)
     table = translate_hash_transitions()
     r_need, r_from, r_to, r_exempt, r_step_to = translate_revert(en)
-    rdf_checked, rdf_decide_first, rdf_requeues = translate_remove(en)
-    clean_states, clean_missing_follows, clean_checked = translate_clean(en)
+    rdf_checked, rdf_decide_first, rdf_requeues, rdf_skips_linked = translate_remove(en)
+    clean_states, clean_missing_follows, clean_checked, clean_skips_linked = translate_clean(en)
     sites, callers = scan_removal_sites()
     unknown = [s for s in sites if s not in KNOWN_REMOVAL_SITES]
     if unknown:
@@ -998,6 +1027,9 @@ def generate():
         "(* does anything survive in Workflow.to_be_deleted when the function returns?  false: the queue is cleared last;",
         "   true: paths whose removal failed but which still exist are put back after the clear(), with their directories *)",
         f"Definition rdf_requeues_failed : bool := {'true' if rdf_requeues else 'false'}.",
+        "(* is a queued / selected path below a directory that is a symbolic link left alone (has_linked_parent guard)? *)",
+        f"Definition rdf_skips_linked_parents : bool := {'true' if rdf_skips_linked else 'false'}.",
+        f"Definition clean_skips_linked_parents : bool := {'true' if clean_skips_linked else 'false'}.",
         "(* clean.py clean: `missing` follows symbolic links (exists) or not (lexists); kinds for which the hash is compared *)",
         f"Definition clean_missing_follows_links : bool := {'true' if clean_missing_follows else 'false'}.",
         "Definition clean_hash_checked (k : fkind) : bool :=",
@@ -1013,6 +1045,7 @@ def generate():
              "declare_sites": declare_sites, "create_sites": create_sites, "removal_sites": sites,
              "callers": sorted(cl), "fs": fs,
              "mark_dir_skips_static_trees": skips_trees, "keep_volatile_on_supply": keep_vol,
-             "rdf_hash_checked": rdf_checked, "rdf_decide_first": rdf_decide_first, "rdf_requeues_failed": rdf_requeues,
+             "rdf_hash_checked": rdf_checked, "rdf_decide_first": rdf_decide_first, "rdf_requeues_failed": rdf_requeues, "rdf_skips_linked_parents": rdf_skips_linked,
+             "clean_skips_linked_parents": clean_skips_linked,
              "clean_missing_follows_links": clean_missing_follows, "clean_hash_checked": clean_checked}
     return "\n".join(lines), facts
